@@ -474,7 +474,7 @@ def run_shapes(cfgname):
             l1 = next((x for x in got if x.startswith("L1 ")), None)
             if not res.get("crashed") and not (l1 and "all_or_nothing=1" in l1 and "errors=0" in l1 and "alloc=0" in l1):
                 res["oracle_hits"].append({"property": "C10", "seq": "shapes", "line": 0, "op": "rt shapes", "class": "shapes-L1", "no_shrink": True,
-                                           "what": f"after a runtime borrow guard was leaked with mem::forget, a create that panics must leave the archetype unchanged and one that returns must have added a whole entity, and the world must afterwards be dropped with the layouts its arrays really have (alloc=0, harness/rt/src/alloc_check.rs) (harness/rt/src/shapes.rs leaked_guard); observed `{l1}`"})
+                                           "what": f"after a runtime borrow guard was leaked with mem::forget, a create that panics must leave the archetype unchanged and one that returns must have added a whole entity, and the world must afterwards be dropped with the layouts its arrays really have (alloc=0: the layout-checking allocator of harness/alloc_check) (harness/rt/src/shapes.rs leaked_guard); observed `{l1}`"})
             l3 = next((x for x in got if x.startswith("L3 ")), None)
             if not res.get("crashed") and not (l3 and "all_or_nothing=1" in l3 and "errors=0" in l3 and "alloc=0" in l3):
                 res["oracle_hits"].append({"property": "C10", "seq": "shapes", "line": 0, "op": "rt shapes", "class": "shapes-L3", "no_shrink": True,
